@@ -43,5 +43,9 @@ PROPERTIES_V = PROPERTIES_V + ["theories/Properties/GerStore.v"]
 MAKE_TARGETS = MAKE_TARGETS + ["theories/Properties/GerStore.vo"]
 
 
+import l1info_common
+
+
 def extra_checks(chk):
     ger_common.run_c07_part(chk)
+    l1info_common.run_c07_part(chk)      # the L1 info tree store part (real l1infotreesync processor)
